@@ -129,14 +129,16 @@ def boolalg_runs(t: str):
                 ("and2-or2", dict(vars_='{"x", "y"}', consts="{0, 2}", box="-2..4", shapes='{"and2", "or2"}'), ["assign"], 0),
                 ("x-only-lits", dict(vars_='{"x"}', consts="{0, 1, 2}", box="-2..4", shapes='{"lit2", "nand2", "nor2"}'),
                  ["assign", "ifelse_pass", "for_if", "return"], 25),
-                ("chains", dict(vars_='{"x", "y"}', consts="{0, 2}", box="-2..4", shapes='{"chain"}'), list(TEMPLATES), 10)]
+                ("chains", dict(vars_='{"x", "y"}', consts="{0, 2}", box="-2..4", shapes='{"chain"}'), list(TEMPLATES), 10),
+                ("const-operands", dict(vars_='{"x"}', consts="{0, 2}", box="-2..4", shapes='{"constop"}'), ["assign", "ifelse_pass"], 20)]
     return [("atoms-not", dict(vars_='{"x", "y"}', consts="{0, 1, 2}", box="-2..4", shapes='{"atom", "not"}'), list(TEMPLATES), 2),
             ("and2-or2-nand-nor", dict(vars_='{"x", "y"}', consts="{0, 1, 2}", box="-2..4", shapes='{"and2", "or2", "nand2", "nor2"}'),
              ["assign", "ifelse_pass"], 50),
             ("x-only-lits", dict(vars_='{"x"}', consts="{0, 1, 2}", box="-2..4", shapes='{"lit2", "nand2", "nor2"}'), list(TEMPLATES), 10),
             ("x-only-3", dict(vars_='{"x"}', consts="{0, 2}", box="-2..4", shapes='{"and3", "or3", "mixed"}'), ["assign"], 0),       # 3 constants: > 50 min in TLC
             ("chains", dict(vars_='{"x", "y"}', consts="{0, 1, 2}", box="-2..4", shapes='{"chain"}'), list(TEMPLATES), 4),
-            ("chains-mixed", dict(vars_='{"x"}', consts="{0, 2}", box="-2..4", shapes='{"chain2"}'), ["assign", "ifelse_pass", "for_if", "return"], 20)]
+            ("chains-mixed", dict(vars_='{"x"}', consts="{0, 2}", box="-2..4", shapes='{"chain2"}'), ["assign", "ifelse_pass", "for_if", "return"], 20),
+            ("const-operands", dict(vars_='{"x", "y"}', consts="{0, 1, 2}", box="-2..4", shapes='{"constop"}'), ["assign", "ifelse_pass", "return"], 20)]
 
 
 def ranges_part(rep: Report, mods, t: str, known, stats):
@@ -213,6 +215,13 @@ def _range_chunk(mods, chunk):
             envs, exps = [{}], [rec["exp"][0]]
         elif kind == "sumcomp":
             text = f"r = sum([x * {rec['s']} for x in range({rec['a']}, {rec['b']})])\n"
+            envs, exps = [{}], [rec["exp"][0]]
+        elif kind == "sumfilt":
+            op, c = rec["fs"][0]
+            cond = f"x {op} {c}" if c >= 0 else f"x {op} ({c})"
+            elt = "x" if rec["s"] == 1 else f"x * {rec['s']}"
+            text = (f"r = sum({elt} for x in range({rec['a']}, {rec['b']}) if {cond})\n" if idx % 2 else
+                    f"r = sum([{elt} for x in range({rec['a']}, {rec['b']}) if {cond}])\n")
             envs, exps = [{}], [rec["exp"][0]]
         else:
             d = rec["a"]
